@@ -290,8 +290,10 @@ def get_cauchy_point(
     delta_t_min = 0 if delta_t_min < 0 else delta_t_min
     t_old += delta_t_min
 
-    # move the variables that are still free (d is zero for the fixed ones)
-    x_cp[d != 0] = (x + t_old * d)[d != 0]
+    # move the variables that are still free (d is zero for the fixed ones); when the
+    # minimiser falls within rounding of a breakpoint, x + t * d can overshoot the
+    # bound by a few ulp: stay in the box
+    x_cp[d != 0] = np.clip(x + t_old * d, lb, ub)[d != 0]
 
     c += delta_t_min * p
 
